@@ -36,8 +36,9 @@ def judge(w, scn, res):
     n0 = res.counters.get('multi_sets_checked', 0)
     bad = monitors.check_sets(w, topo, res)
     # completeness of EPHEMERAL sets is C05's clause (C01 speaks of synchronized sources only): judged there, counted here
-    res.count('ephemeral_partial_sets_left_to_C05', sum(1 for b in bad if b[0] == 'partial-ephemeral-set'))
-    bad = [b for b in bad if b[0] != 'partial-ephemeral-set']
+    EPH = ('partial-ephemeral-set', 'ephemeral-set-mixes-ids', 'ephemeral-set-mixes-publisher-incarnations')
+    res.count('ephemeral_set_findings_left_to_C05', sum(1 for b in bad if b[0] in EPH))
+    bad = [b for b in bad if b[0] not in EPH]
     multi = res.counters.get('multi_sets_checked', 0) - n0
     hazards = []
     if w.warnings['newer']:
@@ -110,7 +111,7 @@ def run_shard(ctx):
     return res
 
 
-RELEVANT = lambda mech: mech not in ('duplicate', 'reorder', 'ephemeral-reorder', 'content-altered', 'partial-ephemeral-set')
+RELEVANT = lambda mech: mech not in ('duplicate', 'reorder', 'ephemeral-reorder', 'content-altered', 'partial-ephemeral-set', 'ephemeral-set-mixes-ids', 'ephemeral-set-mixes-publisher-incarnations')
 
 
 def realnet_pass(ctx, res):
